@@ -41,6 +41,18 @@ CHECKS = {
         design_ref='DESIGN.md §2 C16',
         note='Trusted: the per-field expectation (fits => equal, else prefix/suffix truncation). Names contain a letter in every possible truncation; altloc unset; atom ids absent or monotone with node order; no inter-molecule bonds.',
         technique='Hypothesis round-trip testing with boundary-value construction and fixed-column text checks'),
+    'C17': dict(
+        category='exploration',
+        text=('Generated systems with selected and unselected molecules in every order (selection by protein residue names as the '
+              'CLI does, or by a flag), residues of 1-3 atoms with sparse keys and interleaved atoms, and sequences of every '
+              'documented length class are run through AnnotateResidues.run_system; the expected per-atom value is computed from '
+              'the documented repeat rules, unselected molecules must be byte-for-byte untouched, and length mismatches must raise '
+              'without partial assignment. DSSP->Martini translation is compared with a run-length reference for every string '
+              'over {H,C} up to length 12/16 (exhaustive) and for random strings over the full alphabet, directly and through '
+              'AnnotateMartiniSecondaryStructures.'),
+        design_ref='DESIGN.md §2 C17',
+        note='Trusted: the run-length reference for the helix rules and the rule order (per-molecule repeat, single element, total). Node keys increase with insertion order.',
+        technique='Hypothesis generated systems vs. reference assignment; exhaustive enumeration of DSSP strings vs. run-length reference'),
 }
 
 NOT_YET = 'check not built yet in this round (planned, see DESIGN.md §2)'
